@@ -254,12 +254,14 @@ def report_c05(ctx, rows, fails):
         ft = conv_features(h["sched"], h["conc"], f["conv"])
         if gapfill(h["sched"], f["conv"]):
             key = "C05.Visible:%s:gapfill" % ft["proto"]
+        elif ft.get("reuse") is not None and ft["reuse"] < 300000:
+            # (before the other classes: the two connections on one 4-tuple explain every kind of wrong payload of either)
+            key = "C05.Visible:tcp:tuple-reuse"
+        elif ft["wrap"] and (ft["dup"] or ft["swap"]) and f["fail"] in ("payload-c", "payload-s", "runs"):
+            # (before snapshot-after-close: a conversation can be both, and the extra byte at the wrap is what is seen then)
+            key = "C05.Visible:tcp:seqwrap"
         elif snapshot_after_close(h["sched"], f["conv"]) and f["fail"] in ("twice", "endpoints", "payload-c", "payload-s", "runs"):
             key = "C05.Visible:tcp:snapshot-after-close"
-        elif ft["wrap"] and (ft["dup"] or ft["swap"]) and f["fail"] in ("payload-c", "payload-s", "runs"):
-            key = "C05.Visible:tcp:seqwrap"
-        elif ft.get("reuse") is not None and ft["reuse"] < 300000:
-            key = "C05.Visible:tcp:tuple-reuse"
         else:
             key = "C05.%s:%s:%s%s" % (f["fail"], ft["proto"], pert_name(ft), ":bulk" if ft["bulk"] else "")
         what = "schedule %s (%s) batch %s conversation %s: %s: visible %s, expected %s" % (
